@@ -458,6 +458,8 @@ def oracle(line, a, b):
 
 
 def run(ctx):
+    import os
+    os.environ.setdefault("VERIF_OP_TIMEOUT", "120")   # per-operation watchdog of harness/common.h: a blocked peer becomes FAULT for that op
     ctx.check_proofs()
     model, log = core.build_model("C11")
     if model is None:
